@@ -153,6 +153,18 @@ def run_case(prop, name, idx, confkw, tier, src):
     out.trues = len(trues)
     out.true_idx = [j for j, _b, _B in trues]
     out.row = idx
+    # equal wrappers must hash alike (concrete observation on the pairs that are mutual subhints)
+    out.eqhash_bad = []
+    try:
+        tha = TypeHint(A)
+        for j, bname, B in trues:
+            if j <= idx:
+                continue
+            thb = TypeHint(B)
+            if tha == thb and hash(tha) != hash(thb):
+                out.eqhash_bad.append(j)
+    except Exception:
+        pass
     out.undecided_idx = undecided
     for j, bname, B in trues:
         try:
@@ -230,6 +242,10 @@ def replay_c19(p):
         if ab and bc and not ac:
             return True, f'is_subhint({p["a"]}, {p["b"]}) and is_subhint({p["b"]}, {p["c"]}) are True but is_subhint({p["a"]}, {p["c"]}) is False'
         return False, f'a<=b {ab}, b<=c {bc}, a<=c {ac}'
+    if p['kind'] == 'c19_eqhash':
+        from beartype.door import TypeHint
+        ta, tb = TypeHint(pool[p['a']]), TypeHint(pool[p['b']])
+        return (ta == tb and hash(ta) != hash(tb)), f'TypeHint({p["a"]}) == TypeHint({p["b"]}): {ta == tb}; hashes equal: {hash(ta) == hash(tb)}'
     if p['kind'] == 'c19_reflexivity':
         A = pool[p['a']]
         return (not is_subhint(A, A)), f'is_subhint({p["a"]}, {p["a"]}) = {is_subhint(A, A)}'
@@ -250,6 +266,19 @@ def replay_c19(p):
 
 
 LAWS_INCONCLUSIVE = []
+
+
+def _spelling(name):
+    """Name of a pool hint with the differences erased that are known to give equal-but-differently-hashing
+    wrappers: typing vs PEP 585 / collections.abc spelling, `Any` vs `object` children, bare vs [Any]-subscripted."""
+    import re
+    n = name.replace('abc.', '').replace('collections.', '')
+    n = re.sub(r'\b(List|Dict|Set|FrozenSet|Tuple|Type|Deque|DefaultDict|OrderedDict|Counter|ChainMap)\b', lambda m: m.group(1).lower(), n)
+    n = n.replace('Tuple...', 'tuple...').replace('Tuple1', 'tuple1').replace('Tuple2', 'tuple2')
+    n = re.sub(r'\b(Any|object|TU)\b', 'ANY', n)
+    n = re.sub(r'\[(ANY,?)+\]', '', n)
+    n = re.sub(r'^tuple\.\.\.$', 'tuple', n)
+    return n.lower()
 
 
 def relation_laws(outs, tier, seed):
@@ -276,6 +305,14 @@ def relation_laws(outs, tier, seed):
                 chains += 1
                 if c not in ta and c not in und[a] and (a, c) not in missing:
                     missing[(a, c)] = b
+    for o in outs:
+        for j in getattr(o, 'eqhash_bad', ()):
+            na, nb = pool[o.row][0], pool[j][0]
+            fam = 'spelling' if _spelling(na) == _spelling(nb) else 'other'
+            findings.append({'kind': 'c19_eqhash', 'program': 'TypeHint', 'family': fam,
+                             'label': f'TypeHint({na}) == TypeHint({nb}) but their hashes differ',
+                             'replay': write_replay('C19', {'property': 'C19', 'kind': 'c19_eqhash', 'hint': src, 'a': na, 'b': nb}),
+                             'detail': f'equal wrappers with different hashes ({fam})', 'hint': f'{na} == {nb}', 'confkw': {}})
     for (a, c), b in missing.items():
         na, nb, nc = pool[a][0], pool[b][0], pool[c][0]
         findings.append({'kind': 'c19_transitivity', 'program': 'is_subhint',
